@@ -1524,7 +1524,11 @@ def exec_case(slot, c):
     leftovers = [f for f in os.listdir(slot.dir) if f.startswith("mage_output_file")]
     started = [l.split()[1] for l in out.splitlines() if l.startswith("CALL ") and len(l.split()) > 1]
     projects = sorted(set(t[5:] for l in out.splitlines() if l.startswith("CALL ") for t in l.split()[2:] if t.startswith("proj=")))
+    # the failure tokens are looked for in ALL of stderr: with long failure texts and several failing members the order of
+    # the messages is the completion order, so a token may stand far from the end (a tail-only search raised a false alarm once)
+    want_tokens = ((c.get("want") or {}).get("tokens")) or []
     return {"rc": rc, "ran": len([s for s in started if s in TOP]), "started": started, "projects": projects, "stderr": err[-1500:],
+            "tokens_missing": [t for t in want_tokens if t not in err],
             "stdout_tail": out[-300:], "msg": bool(err.strip()), "note": note, "leftovers": leftovers}
 
 
@@ -1558,7 +1562,7 @@ def judge(c, ob):
         if ob["rc"] == 0 and re.search(r"unsupported GOOS/GOARCH|undefined: |error compiling magefiles|^Error:", ob["stderr"], re.M):
             bad.append(("exit-status", "a build failure is reported on stderr and the exit status is 0"))
     if (w["exit"] != 0 if w["exit"] is not None else ob["rc"] != 0) and w.get("tokens") is not None:
-        missing = [t for t in w["tokens"] if t not in ob["stderr"]]
+        missing = ob["tokens_missing"] if "tokens_missing" in ob and w["tokens"] == ((c.get("want") or {}).get("tokens") or []) else [t for t in w["tokens"] if t not in ob["stderr"]]
         if not ob["msg"]:
             bad.append(("message-on-stderr", "exit status %d and nothing on stderr" % ob["rc"]))
         elif missing:
